@@ -27,7 +27,7 @@ Matches(o) ==
 Conform == Settled => Matches(Trace[l - 1])
 TInit == Init /\ l = 2
 Reset == /\ Settled /\ l <= Len(Trace) /\ Trace[l].t = "init"
-         /\ count' = Files
+         /\ count' = Files \ LateFiles /\ arrived' = {}
          /\ ready' = [w \in Weeks |-> Absent] /\ localr' = [w \in Weeks |-> Absent] /\ uploaded' = [w \in Weeks |-> Absent]
          /\ lock' = [w \in Weeks |-> FALSE] /\ acks' = {} /\ posts' = {}
          /\ alive' = [u \in Uploaders |-> TRUE] /\ runs' = [u \in Uploaders |-> 0] /\ pc' = [u \in Uploaders |-> "Start"]
@@ -50,8 +50,12 @@ Killed == /\ Settled /\ l <= Len(Trace) /\ Trace[l].t = "kill"
           /\ Kill(Trace[l].victim)
           /\ l' = l + 1
           /\ Conform'
+Arrived == /\ Settled /\ l <= Len(Trace) /\ Trace[l].t = "arrive"
+           /\ Arrive(Trace[l].file)
+           /\ l' = l + 1
+           /\ Conform'
 Finished == /\ l = Len(Trace) + 1 /\ UNCHANGED <<vars, l>>
-TNext == Reset \/ Consume \/ Silent \/ Killed \/ Finished
+TNext == Reset \/ Consume \/ Silent \/ Killed \/ Arrived \/ Finished
 TSpec == TInit /\ [][TNext]_<<vars, l>>
 (* The model has real choices (the server's reply, the order in which weeks   *)
 (* are processed): a successor that does not match the observation is simply  *)
